@@ -87,7 +87,7 @@ def run(ctx):
         env = {"VERIF_SEED": ctx.seed, "VERIF_OUT": ctx.work,
                "VERIF_CERTS": os.path.join(REPO, "nsqd", "test", "certs")}
         runs = [("^TestVerifGateAllowed$", "gateia", ctx.budget(20000, 200000)),
-                ("^TestVerifGateCorr$", "gate", ctx.budget(1500, 16000))]
+                ("^TestVerifGateCorr$", "gate", ctx.budget(5000, 80000))]
         for test, stream, n in runs:
             rc, out = ctx.run_cmd([binp, "-test.run", test, "-test.count=1", "-test.timeout=25m"], timeout=1700,
                                   env=dict(env, VERIF_N=n))
